@@ -29,6 +29,29 @@ func requireFollowedBy(c *Ctx, rule string, fn *ssa.Function, events []ssa.Instr
 		if deferredBefore(fn, ev, must) {
 			continue
 		}
+		// the event sits in a block that was extracted into a new helper: the pairing is
+		// decided inside the helper (its exits return to this function)
+		if h, inner, isExp := ExpandSink(ev); isExp {
+			okInside := true
+			for _, iv := range inner {
+				if deferredBefore(h, iv, must) {
+					continue
+				}
+				ri := Reach(h, ReachOpts{From: iv, Cut: cut})
+				hx := Returns(h)
+				if onlySuccess {
+					hx = SuccessReturns(h)
+				}
+				for _, x := range hx {
+					if ri.Reachable(x) {
+						okInside = false
+					}
+				}
+			}
+			if okInside {
+				continue
+			}
+		}
 		r := Reach(fn, ReachOpts{From: ev, Cut: cut})
 		for _, x := range exits {
 			if r.Reachable(x) {
@@ -75,6 +98,14 @@ func whoMayCall(c *Ctx, rule string, fns []*ssa.Function, m CallMatcher, what st
 		if !ok {
 			_, ok = allowed[cs.Fn]
 		}
+		if !ok {
+			// a block extracted out of an allowed function into a new helper keeps its licence
+			if own := effectiveOwner(c.P, cs.Fn); own != top {
+				if _, ok = allowed[own]; ok {
+					top = own
+				}
+			}
+		}
 		det := what + " called from " + FuncName(cs.Fn)
 		if ok {
 			det += " (allowed: " + orDefault(allowed[top], allowed[cs.Fn]) + ")"
@@ -85,6 +116,95 @@ func whoMayCall(c *Ctx, rule string, fns []*ssa.Function, m CallMatcher, what st
 		n++
 	}
 	return n
+}
+
+// resolveProducer: when v is (only) the result of a static call of a repository
+// helper, the helper and the value it returns at that result index (followed
+// twice at most); otherwise fn and v unchanged. Used by rules that inspect how
+// a list is built when the building loop was extracted into a helper.
+func resolveProducer(fn *ssa.Function, v ssa.Value) (*ssa.Function, ssa.Value) {
+	for depth := 0; depth < 2; depth++ {
+		vals, unk := Origins(v)
+		if unk || len(vals) != 1 {
+			break
+		}
+		call, idx, isCall := CallResult(vals[0])
+		if !isCall {
+			break
+		}
+		h := CalleeFunc(&call.Call)
+		if h == nil || h.Blocks == nil || !IsRepoFunc(h) {
+			break
+		}
+		var rv ssa.Value
+		ambiguous := false
+		for _, ri := range Returns(h) {
+			ret := ri.(*ssa.Return)
+			if ret.Block() == h.Recover || idx >= len(ret.Results) {
+				continue
+			}
+			x := ret.Results[idx]
+			if IsNilConst(x) {
+				continue
+			}
+			if rv != nil && rv != x {
+				ambiguous = true
+			}
+			rv = x
+		}
+		if rv == nil || ambiguous {
+			break
+		}
+		fn, v = h, rv
+	}
+	return fn, v
+}
+
+// flattenSinks replaces calls of new helpers that stand for sinks inside them
+// (see CallSinks) by those inner sinks.
+func flattenSinks(ins []ssa.Instruction) []ssa.Instruction {
+	var out []ssa.Instruction
+	for _, in := range ins {
+		if _, inner, ok := ExpandSink(in); ok {
+			out = append(out, flattenSinks(inner)...)
+		} else {
+			out = append(out, in)
+		}
+	}
+	return out
+}
+
+// effectiveOwner: for a function that is new since the anchor snapshot and is
+// called (statically) from exactly one other top-level function of its
+// package, the function it was extracted from (followed up to three levels);
+// otherwise the function's own top-level function.
+func effectiveOwner(p *Prog, fn *ssa.Function) *ssa.Function {
+	top := TopFunc(fn)
+	for depth := 0; depth < 3; depth++ {
+		if !IsNewFunc(top) || top.Pkg == nil {
+			return top
+		}
+		var owner *ssa.Function
+		n := 0
+		for f := range p.AllFuncs {
+			if f.Pkg != top.Pkg && (f.Parent() == nil || TopFunc(f).Pkg != top.Pkg) {
+				continue
+			}
+			for _, ci := range CallsIn(f) {
+				if CalleeFunc(ci.Common()) == top {
+					if t := TopFunc(f); t != owner && t != top {
+						owner = t
+						n++
+					}
+				}
+			}
+		}
+		if n != 1 || owner == nil {
+			return top
+		}
+		top = owner
+	}
+	return top
 }
 
 // nonTestRepoFuncs: repo functions outside generated mocks / testutil packages.
